@@ -16,11 +16,11 @@ theorem verdict : (classify Generated.factsC02).Sound (Holds (cfgOf Generated.fa
 #print axioms torn_create_bricks
 #print axioms append_after_torn_tail_strands
 #print axioms C02_partial
-#print axioms Hv.Storage.run_inv
-#print axioms Hv.Storage.session_image
-#print axioms Hv.Storage.sessionDurable_is_synced_file
-#print axioms Hv.Storage.loadFile_prefix_good
-#print axioms Hv.Storage.loadEntries_strands
-#print axioms Hv.Storage.lossyImageAt_checkpoint
+#print axioms Hv.BlockStore.run_inv
+#print axioms Hv.BlockStore.session_image
+#print axioms Hv.BlockStore.sessionDurable_is_synced_file
+#print axioms Hv.BlockStore.loadFile_prefix_good
+#print axioms Hv.BlockStore.loadEntries_strands
+#print axioms Hv.BlockStore.lossyImageAt_checkpoint
 
 end Hv.C02
